@@ -149,7 +149,7 @@ fn varint(mut n: u64) -> Vec<u8> {
 /// Wire-level additions prost must tolerate or reject: unknown fields, groups, duplicates, ...
 fn craft_extra(rng: &mut Rng) -> Vec<u8> {
     let tag = *rng.pick(&[9u64, 15, 16, 100, 2047, (1 << 29) - 1, 0, 1 << 29]);
-    match rng.below(12) {
+    match rng.below(15) {
         0 => [varint(tag << 3), varint(rand_u64(rng))].concat(),
         1 => [varint(tag << 3 | 1), vec![1, 2, 3, 4, 5, 6, 7, 8]].concat(),
         2 => {
@@ -163,6 +163,47 @@ fn craft_extra(rng: &mut Rng) -> Vec<u8> {
         7 => varint(tag << 3 | 6), // invalid wire type
         8 => [varint(6 << 3), varint(rng.below(5))].concat(), // unpacked rebuild_order
         9 => [varint(3 << 3), varint(rand_u64(rng))].concat(), // duplicate scalar (source_total_size)
+        11 => {
+            // groups nested to a depth around prost's recursion limit, properly closed
+            let depth = *rng.pick(&[1u64, 2, 3, 50, 98, 99, 100, 101, 102, 150]);
+            let mut v = Vec::new();
+            for i in 0..depth {
+                v.extend(varint((tag + i) << 3 | 3));
+            }
+            v.extend([varint(7 << 3), varint(5)].concat());
+            for i in (0..depth).rev() {
+                v.extend(varint((tag + i) << 3 | 4));
+            }
+            v
+        }
+        12 => [varint(tag << 3 | 3), varint(7 << 3), varint(5), varint((tag + 1) << 3 | 4)].concat(), // end group of another field
+        13 => {
+            // a group holding every wire type, a nested group and sometimes a short tail
+            let b = rand_bytes(rng, 4);
+            let mut v = [
+                varint(tag << 3 | 3),
+                varint(7 << 3),
+                varint(rand_u64(rng)),
+                varint(8 << 3 | 1),
+                vec![1, 2, 3, 4, 5, 6, 7, 8],
+                varint(9 << 3 | 2),
+                varint(b.len() as u64),
+                b,
+                varint(10 << 3 | 3),
+                varint(11 << 3 | 5),
+                vec![9, 9, 9, 9],
+                varint(10 << 3 | 4),
+                varint(12 << 3 | 5),
+                vec![9, 9, 9, 9],
+                varint(tag << 3 | 4),
+            ]
+            .concat();
+            if rng.below(3) == 0 {
+                let cut = rng.below(v.len() as u64) as usize;
+                v.truncate(cut);
+            }
+            v
+        }
         10 => vec![0x08 | 0x80, 0x80, 0x80, 0x80, 0x80, 0x80, 0x80, 0x80, 0x80, 0x80, 0x01], // overlong key varint
         _ => [varint(1 << 3 | 2), varint(2), vec![0xff, 0xfe]].concat(), // invalid UTF-8 version
     }
